@@ -96,6 +96,19 @@ fn main() {
             let _ = std::fs::remove_dir_all(&scratch);
             c
         }
+        "world" => {
+            // debugging aid: build the data directory of a scenario's first run into <dir> and print the argv
+            let text = std::fs::read_to_string(&args[2]).expect("read scenario");
+            let scn: desc::Scenario = serde_json::from_str(&text).expect("parse scenario");
+            let dir = PathBuf::from(&args[3]);
+            let built = ser::build_all(&scn);
+            let r = &scn.runs[0];
+            world::build_world(&scn, &built, &scn.layouts[r.layout], &r.disk_faults, &dir.join("data")).expect("build world");
+            std::fs::create_dir_all(dir.join("dump")).unwrap();
+            std::fs::write(dir.join("plan.txt"), r.plan.to_text()).unwrap();
+            println!("RAYON_NUM_THREADS={} RBPSIM_PLAN={} {} {}", r.threads, dir.join("plan.txt").display(), sut.display(), exec::argv_of(&scn, r, &dir.join("data"), &dir.join("dump")).join(" "));
+            0
+        }
         "replay" => {
             if args.len() < 3 {
                 usage();
